@@ -23,6 +23,7 @@ import (
 	"errors"
 	"fmt"
 	"github.com/mimiro-io/datahub/internal/verifhook"
+	"math"
 	"sync"
 	"sync/atomic"
 	"time"
@@ -905,32 +906,35 @@ func (ds *Dataset) updateDataset(newItemCount int64, entities []*Entity) error {
 func (ds *Dataset) GetChangesWatermark() (uint64, error) {
 	var waterMark uint64
 
-	err := ds.store.database.View(func(btxn *badger.Txn) error {
-		//txn := InstrumentedTxn(btxn, ds.store)
-		searchBuffer := make([]byte, 7)
-		txn := btxn
+	err := ds.store.database.View(func(txn *badger.Txn) error {
+		// seek backwards from the largest possible change-log key of this dataset
+		searchBuffer := make([]byte, 14)
 		binary.BigEndian.PutUint16(searchBuffer, DatasetEntityChangeLog)
 		binary.BigEndian.PutUint32(searchBuffer[2:], ds.InternalID)
-		searchBuffer[6] = 0xFF
+		binary.BigEndian.PutUint64(searchBuffer[6:], math.MaxUint64)
 
 		iteratorOptions := badger.DefaultIteratorOptions
 		iteratorOptions.Reverse = true
 		iteratorOptions.PrefetchValues = false
-		iteratorOptions.Prefix = searchBuffer
+		iteratorOptions.Prefix = searchBuffer[:6]
 		changesIterator := txn.NewIterator(iteratorOptions)
 		defer changesIterator.Close()
 
-		changesIterator.Rewind()
-		item := changesIterator.Item()
-		k := item.Key()
+		changesIterator.Seek(searchBuffer)
+		if !changesIterator.ValidForPrefix(searchBuffer[:6]) {
+			// no change in this dataset yet: the next change is the first one.
+			// (the key found here would belong to a neighbouring dataset or index)
+			return nil
+		}
+		k := changesIterator.Item().Key()
 
-		waterMark = binary.BigEndian.Uint64(k[6:14])
+		// need to add one to point to next change in searches.
+		waterMark = binary.BigEndian.Uint64(k[6:14]) + 1
 
 		return nil
 	})
 
-	// need to add one to point to next change in searches.
-	return waterMark + 1, err
+	return waterMark, err
 }
 
 /*
